@@ -91,7 +91,10 @@ pub fn gen_cfg(rng: &mut Rng, tier: Tier, kt0: bool) -> OptCfg {
         Tier::Quick => 2000,
         Tier::Thorough => 6000,
     };
+    // rare long runs (tens of thousands of steps)
+    let long = rng.chance(0.002);
     let steps = match rng.below(6) {
+        _ if long => rng.range_u64(20_000, 60_000),
         0 => rng.range_u64(1, 20),
         1 => rng.range_u64(20, 200),
         2 => 1000,
@@ -99,6 +102,7 @@ pub fn gen_cfg(rng: &mut Rng, tier: Tier, kt0: bool) -> OptCfg {
     };
     let loops_target = *rng.pick(&[1u64, 2, 3, 5, 10, 20, 50, 100]);
     let inner = match rng.below(8) {
+        0 if rng.chance(0.2) => u64::MAX,
         0 => steps + rng.range_u64(1, 1000), // inner > steps
         1 => rng.range_u64(1, steps.max(1)), // arbitrary, mostly non-multiples
         _ => (steps / loops_target).max(1),
@@ -120,7 +124,12 @@ pub fn gen_cfg(rng: &mut Rng, tier: Tier, kt0: bool) -> OptCfg {
         kt_ratio,
         max_step: *rng.pick(&[0.0, 1e-3, 0.01, 0.01, 0.1, 0.5, 1.0, 2.5, 5.0, 1e-7]),
         convergence: *rng.pick(&[None, None, None, Some(0.0), Some(1e-6), Some(1e-2)]),
-        seed: rng.below(1 << 32),
+        // replica indices are small seeds; the extremes of u64 are legal too
+        seed: match rng.below(10) {
+            0 => rng.below(8),
+            1 => u64::MAX - rng.below(4),
+            _ => rng.below(1 << 32),
+        },
         order: if rng.chance(0.5) { 1 + rng.below(1 << 20) } else { 0 },
         prior: if rng.chance(0.25) { Some((*rng.pick(&[1u64, 10, 100_000]), *rng.pick(&[1u64, 7, 100_000]))) } else { None },
     }
